@@ -251,11 +251,10 @@ func (a Bytes) M__add__(other Object) (Object, error) {
 }
 
 func (a Bytes) M__iadd__(other Object) (Object, error) {
-	if b, ok := convertToBytes(other); ok {
-		a = append(a, b...)
-		return a, nil
-	}
-	return NotImplemented, nil
+	// bytes are immutable: += makes a new object (appending in
+	// place would write into storage shared with other bytes
+	// objects grown from the same value)
+	return a.M__add__(other)
 }
 
 func (a Bytes) Replace(args Tuple) (Object, error) {
